@@ -264,7 +264,7 @@ Definition io_toks (custom : bool) (o : ioline) : list tok :=
   TStr (o_name o) :: (if custom then tags_toks (o_tags o) else []) ++ TParen (io_text (o_type o))
   :: (if nil_b (concat (o_desc o)) then [] else TColon :: str_toks (o_desc o)) ++ [TNl].
 Definition io_parse (ts : list tok) : option (ioline * list tok) :=
-  match ts with
+  match skip_nl ts with                  (* name = tok.expect(Token.STRING) skips NEWLINEs *)
   | TStr name :: ts0 =>
       match opt_tags ts0 with None => None | Some (tags, ts1) =>
       match ts1 with
